@@ -8,6 +8,7 @@ import (
 	"sync/atomic"
 
 	"github.com/go-kid/ioc/component_definition"
+	"github.com/go-kid/ioc/configure"
 	"github.com/go-kid/ioc/container"
 	"github.com/go-kid/ioc/container/processors"
 	"github.com/go-kid/ioc/definition"
@@ -382,4 +383,26 @@ func (b *PromotedPlainRunner) Naming() string { return b.Nm }
 func (b *PromotedPlainRunner) Run() error {
 	b.Log.Add("run", b.Nm)
 	return nil
+}
+
+// ClosingConfigure: a configure of the application's own (handed over with SetConfigure) that holds a resource and
+// releases it in Close; it may be registered as a component too, so that other components can wire it.
+type ClosingConfigure struct {
+	configure.Configure
+	Nm  string
+	Log *mon.Lifecycle
+}
+
+func (w *ClosingConfigure) Naming() string { return w.Nm }
+func (w *ClosingConfigure) Close() error {
+	w.Log.Add("close-begin", w.Nm)
+	w.Log.Add("close-end", w.Nm)
+	return nil
+}
+
+// ConfigSubscriber: a closer that wires the application's configure.
+type ConfigSubscriber struct {
+	Source *ClosingConfigure `wire:",required=false"`
+	V      string            `value:"${own.v:none}"`
+	TopCloser
 }
